@@ -171,6 +171,9 @@ func (fs *FS) Rename(oldname, newname string) error {
 func (fs *FS) rename(oldname, newname string) error {
 	oldMount, oldPoint, oldSubPath := fs.mountPoint(oldname)
 	newMount, newPoint, newSubPath := fs.mountPoint(newname)
+	if oldPoint == newPoint && oldname != newname {
+		return hackpadfs.Rename(oldMount, oldSubPath, newSubPath)
+	}
 	oldInfo, err := hackpadfs.Stat(oldMount, oldSubPath)
 	if err != nil {
 		return &hackpadfs.LinkError{Op: "rename", Old: oldname, New: newname, Err: err}
@@ -180,10 +183,6 @@ func (fs *FS) rename(oldname, newname string) error {
 			return nil
 		}
 		return &hackpadfs.LinkError{Op: "rename", Old: oldname, New: newname, Err: hackpadfs.ErrExist}
-	}
-
-	if oldPoint == newPoint {
-		return hackpadfs.Rename(oldMount, oldSubPath, newSubPath)
 	}
 	if oldInfo.IsDir() {
 		// TODO support renaming directories
